@@ -5,6 +5,7 @@ package main
 import (
 	"verifharness/internal/hk"
 	_ "verifharness/props/c01"
+	_ "verifharness/props/c04"
 	_ "verifharness/props/c10"
 	_ "verifharness/props/c11"
 	_ "verifharness/props/c12"
